@@ -109,13 +109,15 @@ structure DState where
 
 def toks (s : String) : List String := (s.trimAscii.toString.splitOn " ").filter (· != "")
 
-/-- after `S k 2`, skip the rule registrations (`L`/`G`) of discovered dependencies up to `DS k` -/
+/-- after `S k 2`, skip the rule registrations (`L`/`G`) of discovered dependencies, a cancellation and
+completions reported concurrently by other threads, up to `DS k` -/
 def splitAtWrite (k : String) : List String → List String → Option (List String × String × List String)
   | acc, e :: rest =>
     match toks e with
     | "L" :: _ => splitAtWrite k (acc ++ [e]) rest
     | "G" :: _ => splitAtWrite k (acc ++ [e]) rest
     | ["X"] => splitAtWrite k (acc ++ [e]) rest
+    | "C" :: _ => splitAtWrite k (acc ++ [e]) rest      -- a completion reported concurrently by another thread
     | ["KILL"] => some (acc, e, rest)      -- the process died before the write: the completion never took effect
     | "DS" :: k' :: _ => if k == k' then some (acc, e, rest) else none
     | _ => none
